@@ -2244,7 +2244,16 @@ impl<'a, W: Write + 'a> Serializer<'a, W> {
                         file_version: version,
                     }; //Savefile always serializes most recent version. Only savefile-abi ever writes old formats.
                     data.serialize(&mut serializer)?;
-                    compressed_writer.flush()?;
+                    if let Err(err) = compressed_writer.flush() {
+                        // The error may have interrupted the encoder in the middle of a flush. The Drop of
+                        // BzEncoder (bzip2 0.4) then asks the compressor to finish, which libbz2 refuses in
+                        // that state, and retries forever. Let the pending flush run to completion first;
+                        // if the writer fails again, skip the encoder's Drop altogether.
+                        if compressed_writer.flush().is_err() {
+                            std::mem::forget(compressed_writer);
+                        }
+                        return Err(err.into());
+                    }
                     // Finish the bzip2 stream explicitly. Otherwise the end-of-stream trailer is written
                     // by the Drop of BzEncoder, which ignores write errors (the save would be reported
                     // as successful although the output is incomplete).
